@@ -33,7 +33,7 @@ def main():
             print(f"replay: no violation reproduced ({rec.evaluations} monitor evaluations)")
         return 1 if n else 0
     tier, seed, shard, nshards, deadline, out = a[1], int(a[2]), int(a[3]), int(a[4]), float(a[5]), a[6]
-    faulthandler.dump_traceback_later(deadline * 3 + 90, exit=True)
+    faulthandler.dump_traceback_later(float(os.environ.get("VERIF_WATCHDOG", 0) or (deadline * 3 + 90)), exit=True)
     rec = core.set_recorder(core.Recorder(prop))
     cfg = core.Cfg(prop, tier, seed, shard, nshards, deadline)
     from . import coverage
